@@ -163,7 +163,7 @@ type Sim struct {
 	Exec func(api uint8, input string) (res string, raw string)
 
 	pools   map[uintptr][]poolItem
-	conds   map[uintptr][]*Task
+	conds   map[uintptr][]*condEntry
 	clock   int64   // accumulated jumps + sleeps, ns
 	bg      []*Task // library goroutines that outlived the run they were started in
 	chans   map[uintptr]*chanState
@@ -194,7 +194,7 @@ type Sim struct {
 
 func NewSim(exec func(api uint8, input string) (string, string)) *Sim {
 	toSched = make(chan request)
-	return &Sim{Exec: exec, pools: map[uintptr][]poolItem{}, conds: map[uintptr][]*Task{}, chans: map[uintptr]*chanState{}}
+	return &Sim{Exec: exec, pools: map[uintptr][]poolItem{}, conds: map[uintptr][]*condEntry{}, chans: map[uintptr]*chanState{}}
 }
 
 const inf = int64(math.MaxInt64 / 4)
@@ -611,28 +611,55 @@ func (s *Sim) handle(req request) {
 				ts.When = s.Now() + int64(req.addr)
 			}
 		}
+	case ReqCondAdd:
+		// sync.Cond.Wait adds the caller to the notify list BEFORE it unlocks L:
+		// a Signal issued between the unlock and the suspension is not lost
+		s.conds[req.addr] = append(s.conds[req.addr], &condEntry{t: t})
 	case ReqCondWait:
-		t.state = stCondWait
-		t.blockAddr = req.addr
-		s.conds[req.addr] = append(s.conds[req.addr], t)
-	case ReqCondSignal:
-		w := s.conds[req.addr]
-		if len(w) > 0 {
-			if req.n == 1 {
-				for _, x := range w {
-					x.state = stRunnable
-				}
-				delete(s.conds, req.addr)
+		es := s.conds[req.addr]
+		for i, e := range es {
+			if e.t != t {
+				continue
+			}
+			if e.signalled {
+				s.conds[req.addr] = append(es[:i:i], es[i+1:]...)
 			} else {
-				k := 0
-				if !s.explicit {
-					k = s.rng.Intn(len(w))
-				}
-				w[k].state = stRunnable
-				s.conds[req.addr] = append(w[:k:k], w[k+1:]...)
+				e.waiting = true
+				t.state = stCondWait
+				t.blockAddr = req.addr
+			}
+			break
+		}
+	case ReqCondSignal:
+		es := s.conds[req.addr]
+		var keep []*condEntry
+		fired := false
+		for _, e := range es {
+			if e.signalled || (req.n != 1 && fired) {
+				keep = append(keep, e)
+				continue
+			}
+			// Signal wakes the longest waiter (notify-list order), Broadcast all
+			fired = true
+			e.signalled = true
+			if e.waiting {
+				e.t.state = stRunnable
+			} else {
+				keep = append(keep, e) // consumed by its ReqCondWait
 			}
 		}
+		if len(keep) == 0 {
+			delete(s.conds, req.addr)
+		} else {
+			s.conds[req.addr] = keep
+		}
 	}
+}
+
+type condEntry struct {
+	t         *Task
+	signalled bool
+	waiting   bool
 }
 
 // Go replaces a go statement of the library: the child becomes a task of the
